@@ -23,14 +23,25 @@ def is_reversed(t, base):
     return t == ("sub", base, ("slice", NONE, NONE, const(-1))) or (t[0] in ("tuple", "list") and t[1] == (mk_sub(base, const(1)), mk_sub(base, const(0))))
 
 
+def unseq(t):
+    """list(X) / tuple(X) of a non-literal X is represented as an open sequence (kind, (*X,)): give X back"""
+    while t[0] in ("tuple", "list") and len(t[1]) == 1 and t[1][0][0] == "star":
+        t = t[1][0][1]
+    return t
+
+
 def unwrap(t, funcs=IDENT_FUNCS, methods=IDENT_METHODS):
     """strip value-preserving wrappers"""
     while True:
+        if t[0] in ("tuple", "list") and len(t[1]) == 1 and t[1][0][0] == "star":
+            t = t[1][0][1]
+            continue
         if t[0] == "call" and t[1][0] == "glob" and t[1][1] in funcs and t[2]:
             if "order" in dict(t[3]) or (t[1][1] in ("numpy.ravel",) and len(t[2]) > 1):
                 return t
             t = t[2][0]
-        elif t[0] == "call" and t[1][0] == "attr" and t[1][2] in methods:
+            continue
+        if t[0] == "call" and t[1][0] == "attr" and t[1][2] in methods:
             if "order" in dict(t[3]) or (t[1][2] in ("ravel", "flatten") and t[2]):
                 return t
             t = t[1][1]
